@@ -44,6 +44,13 @@ type Connection struct {
 	// Set (to 1) by Close before the session is removed. Without a session Write cannot encrypt;
 	// a writer which gets its turn while the connection is being closed must not send its bytes as they are.
 	closed int32
+
+	// Event notifications and keep-alives which become due while the http server answers a request
+	// on this connection are kept and written after the response. A response is written in several
+	// pieces; a message of its own must not be sent between two of them.
+	responseMutex sync.Mutex
+	inResponse    bool
+	pending       [][]byte
 }
 
 // NewConnection returns a hap connection.
@@ -162,6 +169,40 @@ func (con *Connection) Write(b []byte) (int, error) {
 	}
 
 	return con.connection.Write(b)
+}
+
+// BeginResponse tells the connection that the http server starts to answer a request.
+func (con *Connection) BeginResponse() {
+	con.responseMutex.Lock()
+	con.inResponse = true
+	con.responseMutex.Unlock()
+}
+
+// EndResponse tells the connection that the response was written completely.
+// The messages which were kept in the meantime are written now, in the order in which they became due.
+func (con *Connection) EndResponse() {
+	con.responseMutex.Lock()
+	defer con.responseMutex.Unlock()
+
+	con.inResponse = false
+	for _, b := range con.pending {
+		con.Write(b)
+	}
+	con.pending = nil
+}
+
+// WriteMessage writes a message which is not the response to a request (an event notification, a keep-alive).
+// While a response is being written on the connection, the message is kept and written after it.
+func (con *Connection) WriteMessage(b []byte) (int, error) {
+	con.responseMutex.Lock()
+	defer con.responseMutex.Unlock()
+
+	if con.inResponse {
+		con.pending = append(con.pending, append([]byte(nil), b...))
+		return len(b), nil
+	}
+
+	return con.Write(b)
 }
 
 // Read reads bytes from the connection. The read bytes are decrypted when possible.
